@@ -91,13 +91,13 @@ prop('C18', 'model_checking', 'exhaustive enumeration of all source trees of a s
      'Every tree with up to 2 (thorough 3) entries drawn from 21 kinds (file sizes around block boundaries, holes at start/middle/end, allocated zero blocks, data beyond 4 GiB, symlinks of 2/59/60/300 bytes, hard link, char/block device with 20-bit minor, fifo, socket, nested directory) and every kind x one metadata variant '
      '(setuid/sticky/0000 modes, owners 1000 and 70000, mtime 0/1/2^31-1, user xattr) is built by mke2fs -d and by a debugfs script on 2 (thorough 6) feature sets; an independent reading of the image must equal the lstat walk of the source in names, types, rdev, sizes, content block by block, holes, '
      'targets, link groups and counts, 12 mode bits, owners, mtime seconds and user xattrs; e2fsck -fn = 0, independent checker clean, rebuild byte-identical; debugfs rdump / dump -p output compared with the source.',
-     'source trees live on the scratch tmpfs, built as root. Known finding: sparse files on inline_data filesystems. Two defects were repaired (inline-data reads returned the inline area size; rdump did not restore symlink owners).', '4/C18')
+     'source trees live on the scratch tmpfs, built as root. Defects found this way were repaired (inline-data reads returned the inline area size; rdump did not restore symlink owners; sparse files on inline_data filesystems).', '4/C18')
 
 prop('C09', 'model_checking', 'explicit-state BFS over histories of file operations on the real libext2fs (in-process harness, states de-duplicated on the image hash), byte-array reference model checked after every operation, independent checker on distinct states',
      'Breadth-first search to depth 2-3 over ~330 operations on two files (pwrite at offsets around block, indirect-level and cluster boundaries x 5 lengths, two writes and a read through one handle, set_size, punch over block ranges, fallocate with each flag combination, filesystem close+reopen) on block-mapped, extent, '
      'extent+metadata_csum, bigalloc, inline_data and 4k-block filesystems, empty and nearly full: after every operation both files are read back completely through fresh handles (two chunk sizes) and must equal the byte-array model (last write wins, holes/punched/preallocated ranges read zero, exact size); '
      'every distinct final image must pass e2fsck -fn and the independent checker (i_blocks, bitmaps).',
-     'depth-bounded (quick: depth 2, depth 3 from states that end in a shrinking operation; thorough: depth 3); after an operation that fails with an error other than no-space the affected file is no longer compared. Known findings: three defects of the inline-data paths. Two defects (fallocate gap filling, indirect punch) were repaired.', '4/C09')
+     'depth-bounded (quick: depth 2, depth 3 from states that end in a shrinking operation; thorough: depth 3); after an operation that fails with an error other than no-space the affected file is no longer compared. Six defects found this way were repaired (fallocate gap filling, indirect punch, and four in the inline-data write/set_size/convert/punch paths).', '4/C09')
 
 prop('C15', 'model_checking', 'explicit-state BFS over histories of xattr set/replace/remove operations on the real libext2fs (in-process harness, states de-duplicated on the image hash), map reference model checked after every operation, independent checker on distinct states',
      'Breadth-first search to depth 2 (thorough 3) over set/remove operations for 7 names (user, a 250-byte name, trusted, security, POSIX ACL) x value lengths placed around the in-inode and in-block capacities of each configuration and beyond one block (ea_inode), two sets through one handle and filesystem reopen, '
